@@ -366,12 +366,15 @@ fn execute_history(run: &Run, opts: &ExecOpts) -> Outcome {
                     st.resolve_fault.remove(f);
                 }
             }
-            Op::Checkpoint { fresh_hash_seeds } => {
+            Op::Checkpoint { fresh_hash_seeds, diag_first } => {
                 cx.out.stats.checkpoints += 1;
                 cx.out.stats.builds += 2;
-                let ts = session::build_triple(&shared, &entry, &settings, false);
+                let ts = session::build_triple(&shared, &entry, &settings, *diag_first);
                 cx.log_triple(&ts);
                 note_build(&mut cx, &shared, &ts);
+                if *diag_first {
+                    cx.out.stats.probe("checkpoint_diagnostics_entry_point_first");
+                }
                 let sync = synced(&shared.borrow(), &cx.touched);
                 if opts.trace {
                     cx.trace.push(format!("  session -> {} ; synced: {}", ts.shape(), match &sync { Ok(()) => "yes".to_string(), Err(e) => format!("no ({})", e) }));
@@ -398,7 +401,7 @@ fn execute_history(run: &Run, opts: &ExecOpts) -> Outcome {
                     let mut fresh: Vec<FreshResult> = vec![];
                     for s in &seeds {
                         cx.out.stats.fresh_builds += 2;
-                        let v = Variant { hash_seed: *s, preregister: vec![], repeat: false, diag_first: false };
+                        let v = Variant { hash_seed: *s, preregister: vec![], repeat: false, diag_first: *diag_first };
                         let fr = fresh_process(&fs_now, &entry, &run.project.settings, &v);
                         cx.log_triple(&fr.first);
                         fresh.push(fr);
@@ -442,7 +445,7 @@ fn execute_history(run: &Run, opts: &ExecOpts) -> Outcome {
                                         }
                                     }
                                 }
-                                let t2 = session::build_triple(&shared, &entry, &settings, false);
+                                let t2 = session::build_triple(&shared, &entry, &settings, *diag_first);
                                 cx.log_triple(&t2);
                                 if t2 == *fr {
                                     attributed = true;
